@@ -220,6 +220,21 @@ def run_shard(ctx):
             # a condition that repeats an outcome: P(A, B | A) = P(B | A) - unusual, but a probability like any other
             ast[3] = [list(x) if isinstance(x, list) else x for x in ast[3]] + [rng.choice(ast[2])]
             kernel.count("C13:condition-repeats-an-outcome")
+        if i % 6 == 1 and ast[2]:
+            # two outcomes of one NAME in different worlds (P(Y @ +X, Y @ -X, Z)): different random variables, a joint
+            # like any other - the helpers must keep both
+            c = rng.choice(ast[2])
+            others = [x for x in names if x != c[0]]
+            if c[2]:
+                twin_iv = rng.choice([[], [[c[2][0][0], not c[2][0][1]]] + [list(x) for x in c[2][1:]]])
+            else:
+                twin_iv = [[rng.choice(others), rng.random() < 0.5]] if others else None
+            if twin_iv is not None:
+                twin = [c[0], c[1], twin_iv]
+                if all(not (v[0] == twin[0] and sorted(map(tuple, v[2])) == sorted(map(tuple, twin[2]))) for v in ast[2] + ast[3]):
+                    ast[2] = list(ast[2]) + [twin]
+                    rng.shuffle(ast[2])
+                    kernel.count("C13:same-name-outcomes-in-two-worlds")
         p = ge.build_raw(ast)
         src = ge.to_src(p)
         mode = i % 4
